@@ -44,7 +44,7 @@ def gen(rng, tier):
     rng.shuffle(derived)
     targets = rand_vars[:4] + derived[:4]
     hist = gen_history(rng, targets, rand_vars, tier)
-    return {"recipe": recipe, "targets": targets, "rand_vars": rand_vars, "history": hist}
+    return {"scribble": rng.random() < 0.5, "recipe": recipe, "targets": targets, "rand_vars": rand_vars, "history": hist}
 
 
 def gen_history(rng, targets, rand_vars, tier):
